@@ -162,6 +162,23 @@ fn ord(o: Ordering) -> &'static str {
     }
 }
 
+/// records every byte the `Hash` impl writes (the default `write_*` methods all end in `write`)
+struct Rec(Vec<u8>);
+impl Hasher for Rec {
+    fn finish(&self) -> u64 {
+        0
+    }
+    fn write(&mut self, bytes: &[u8]) {
+        self.0.extend_from_slice(bytes);
+    }
+}
+
+fn hash_stream(t: &OwnedTerm) -> Vec<u8> {
+    let mut r = Rec(vec![]);
+    t.hash(&mut r);
+    r.0
+}
+
 fn h(t: &OwnedTerm) -> u64 {
     let mut s = std::collections::hash_map::DefaultHasher::new();
     t.hash(&mut s);
@@ -269,6 +286,39 @@ pub fn run_mode(ctx: &mut Ctx, c12: bool) {
             }
         }
         return;
+    }
+    // ties of the equality and hash models (Impl/EqHash.lean): `==` on every pair that compares Equal and on a
+    // sample of the others; the hashed byte stream of every term
+    for i in 0..n {
+        ctx.tie("hash", &format!("c11hash {}", texts[i]), &crate::canon::hexarg(&hash_stream(&u[i])));
+        for j in 0..n {
+            if m[i * n + j] == Ordering::Equal || (i * 31 + j * 17) % 23 == 0 {
+                ctx.tie("eqv", &format!("c11eqv {} {}", texts[i], texts[j]), if u[i] == u[j] { "true" } else { "false" });
+                ctx.count("eqv_pairs");
+            }
+        }
+    }
+    // model tie only (not part of the law checks): big integers with high-order zero digits, which the decoder
+    // accepts as they arrive; the code compares digit counts first, so these do not compare by value
+    let nonmin: Vec<OwnedTerm> = vec![
+        OwnedTerm::BigInt(BigInt::new(false, vec![1, 0])),
+        OwnedTerm::BigInt(BigInt::new(false, vec![0])),
+        OwnedTerm::BigInt(BigInt::new(true, vec![0, 0])),
+        OwnedTerm::BigInt(BigInt::new(false, vec![5, 0, 0])),
+        OwnedTerm::BigInt(BigInt::new(true, vec![1, 0])),
+        OwnedTerm::BigInt(BigInt::new(false, vec![0, 0, 0, 0, 0, 0, 0, 0, 1, 0])),
+        OwnedTerm::BigInt(BigInt::new(false, vec![1])),
+    ];
+    for a in &nonmin {
+        let ta = term_text(a);
+        for (j, b) in u.iter().enumerate().filter(|(_, b)| matches!(b, OwnedTerm::Integer(_) | OwnedTerm::BigInt(_) | OwnedTerm::Float(_))) {
+            ctx.tie("nonmin", &format!("c11cmp {} {}", ta, texts[j]), ord(a.cmp(b)));
+            ctx.tie("nonmin", &format!("c11cmp {} {}", texts[j], ta), ord(b.cmp(a)));
+            ctx.count("nonminimal_big_pairs");
+        }
+        for b in &nonmin {
+            ctx.tie("nonmin", &format!("c11cmp {} {}", ta, term_text(b)), ord(a.cmp(b)));
+        }
     }
     // C11 laws on the implementation itself
     for i in 0..n {
